@@ -41,5 +41,7 @@ for c in checks:
     for kind in ("Props", "Drv"):
         if os.path.exists(os.path.join(here, "lean", "Operon", kind, c["property_id"] + ".lean")):
             tg.append(f"Operon.{kind}.{c['property_id']}")
+    if os.path.exists(os.path.join(here, "lean", "Operon", "Props", c["property_id"] + "T.lean")):
+        tg.append(f"Operon.Props.{c['property_id']}T")      # optional tie module (see harness/vf/core.py::lean_check)
 open(os.path.join(here, "tools", "targets.txt"), "w").write(" ".join(tg) + "\n")
 print("MANIFEST.json:", len(checks), "checks,", len(na), "not claimed")
